@@ -9,8 +9,10 @@ CONSTANTS
   H = 100
   U = 1
   AlgVariant = "ok"
+  Cuts = {"none", "low"}
   Export = FALSE
 INVARIANT ModelCovered
+INVARIANT AllNumWhenCovered
 INVARIANT ModelWithItsRow
 INVARIANT ModelPermutationInvariant
 INVARIANT ModelBetween
